@@ -98,10 +98,61 @@ theorem blockedM_allZero (s : Str) (m : M) (mk : MaskA) (tr un : List Seg) (h : 
     · exact ⟨rfl, hz⟩
     · exact ⟨rfl, az_append hz (az_replicate _)⟩
 
-/-- the string under a mask: substitution of the matches that are not blocked. -/
-theorem applyRuleM_string (s : Str) (ms : List M) (mk : MaskA) (tr un : List Seg) :
-    (applyRuleM s ms mk tr un).res.out = subst s (tr ++ un) (liveMatches s ms mk tr un) 0 := by
-  unfold applyRuleM
+private theorem liveMatches_cons_blocked (s : Str) (m : M) (ms : List M) (mk : MaskA) (tr un : List Seg)
+    (hb : (blockedM s m mk tr un).1 = true) :
+    liveMatches s (m :: ms) mk tr un = liveMatches s ms mk tr un := by
+  unfold liveMatches
+  rw [List.filter_cons]
+  simp only [hb, Bool.not_true, Bool.false_eq_true, if_false]
+
+private theorem liveMatches_cons_live (s : Str) (m : M) (ms : List M) (mk : MaskA) (tr un : List Seg)
+    (hb : (blockedM s m mk tr un).1 = false) :
+    liveMatches s (m :: ms) mk tr un = m :: liveMatches s ms mk tr un := by
+  unfold liveMatches
+  rw [List.filter_cons]
+  simp only [hb, Bool.not_false, if_true]
+
+private theorem ruleLoopM_filter_aux (s : Str) (mk : MaskA) (tr un : List Seg) (ms : List M) (pos : Nat)
+    (shift : Int) :
+    (ruleLoopM s mk tr un ms pos shift).part
+        = (ruleLoop s tr un (liveMatches s ms mk tr un) pos shift).1 ∧
+    (ruleLoopM s mk tr un ms pos shift).shift
+        = (ruleLoop s tr un (liveMatches s ms mk tr un) pos shift).2 ∧
+    (ruleLoopM s mk tr un ms pos shift).mask = maskLoop s mk tr un (liveMatches s ms mk tr un) pos ∧
+    (ruleLoopM s mk tr un ms pos shift).applied = !(liveMatches s ms mk tr un).isEmpty := by
+  induction ms generalizing pos shift with
+  | nil => exact ⟨rfl, rfl, rfl, rfl⟩
+  | cons m ms ih =>
+    cases hb : (blockedM s m mk tr un).1 with
+    | true =>
+      simp only [ruleLoopM, hb, if_true, liveMatches_cons_blocked s m ms mk tr un hb]
+      exact ih pos shift
+    | false =>
+      obtain ⟨i1, i2, i3, i4⟩ := ih m.e (shift + (processMatch s m shift tr un).2)
+      simp only [ruleLoopM, hb, Bool.false_eq_true, if_false, liveMatches_cons_live s m ms mk tr un hb,
+        ruleLoop, maskLoop, List.isEmpty_cons, Bool.not_false, i1, i2, i3, and_self]
+
+/-- the line-by-line loop (every match tested, a blocked one skipped) is the mask-free loop over the
+matches that are not blocked, with the mask entries of `maskLoop`. -/
+theorem ruleLoopM_eq_filter (s : Str) (mk : MaskA) (tr un : List Seg) (ms : List M) (pos : Nat) (shift : Int) :
+    let r := ruleLoopM s mk tr un ms pos shift
+    let live := liveMatches s ms mk tr un
+    r.part = (ruleLoop s tr un live pos shift).1 ∧ r.shift = (ruleLoop s tr un live pos shift).2 ∧
+    r.mask = maskLoop s mk tr un live pos ∧ r.applied = !live.isEmpty :=
+  ruleLoopM_filter_aux s mk tr un ms pos shift
+
+/-- `_REPPRule._apply` as the code runs it = its filter form. -/
+theorem applyRuleM_eq_filter (s : Str) (ms : List M) (mk : MaskA) (tr un : List Seg) :
+    applyRuleM s ms mk tr un = applyRuleF s ms mk tr un := by
+  unfold applyRuleM applyRuleF
+  split
+  · rfl
+  · obtain ⟨i1, i2, i3, i4⟩ := ruleLoopM_filter_aux s mk tr un ms 0 0
+    simp only [i1, i2, i3, i4]
+
+private theorem applyRuleF_string (s : Str) (ms : List M) (mk : MaskA) (tr un : List Seg) :
+    (applyRuleF s ms mk tr un).res.out = subst s (tr ++ un) (liveMatches s ms mk tr un) 0 := by
+  unfold applyRuleF
   split
   · rename_i h
     simp only [List.isEmpty_iff] at h
@@ -117,20 +168,18 @@ private theorem liveMatches_all (s : Str) (ms : List M) (mk : MaskA) (tr un : Li
   rw [h m hm]
   rfl
 
-/-- no match blocked: exactly the mask-free rule application. -/
-theorem applyRuleM_not_blocked (s : Str) (ms : List M) (mk : MaskA) (tr un : List Seg)
+private theorem applyRuleF_not_blocked (s : Str) (ms : List M) (mk : MaskA) (tr un : List Seg)
     (h : ∀ m ∈ ms, (blockedM s m mk tr un).1 = false) :
-    (applyRuleM s ms mk tr un).res = applyRule s ms tr un := by
-  unfold applyRuleM applyRule
+    (applyRuleF s ms mk tr un).res = applyRule s ms tr un := by
+  unfold applyRuleF applyRule
   split
   · rfl
   · rename_i hne
     simp only [liveMatches_all s ms mk tr un h, hne, Bool.not_false]
 
-/-- some match not blocked: the mask-free rule application on the matches that are not blocked. -/
-theorem applyRuleM_live (s : Str) (ms : List M) (mk : MaskA) (tr un : List Seg)
+private theorem applyRuleF_live (s : Str) (ms : List M) (mk : MaskA) (tr un : List Seg)
     (h : liveMatches s ms mk tr un ≠ []) :
-    (applyRuleM s ms mk tr un).res = applyRule s (liveMatches s ms mk tr un) tr un := by
+    (applyRuleF s ms mk tr un).res = applyRule s (liveMatches s ms mk tr un) tr un := by
   have hl : (liveMatches s ms mk tr un).isEmpty = false := by
     cases hq : liveMatches s ms mk tr un with
     | nil => exact absurd hq h
@@ -139,7 +188,7 @@ theorem applyRuleM_live (s : Str) (ms : List M) (mk : MaskA) (tr un : List Seg)
     cases ms with
     | nil => exact absurd rfl h
     | cons a b => rfl
-  unfold applyRuleM applyRule
+  unfold applyRuleF applyRule
   simp only [hl, hms, Bool.false_eq_true, if_false, Bool.not_false]
 
 private theorem rep_sm (n : Nat) : (0 : Int) :: List.replicate n 0 ++ [0] = List.replicate (n + 2) 0 := by
@@ -151,12 +200,11 @@ private theorem rep_em (n : Nat) :
   rw [List.replicate_succ]
   rfl
 
-/-- every match blocked: string unchanged, not applied, zero maps (the end sentinel holds -1). -/
-theorem applyRuleM_all_blocked (s : Str) (ms : List M) (mk : MaskA) (tr un : List Seg) (hne : ms ≠ [])
+private theorem applyRuleF_all_blocked (s : Str) (ms : List M) (mk : MaskA) (tr un : List Seg) (hne : ms ≠ [])
     (h : ∀ m ∈ ms, (blockedM s m mk tr un).1 = true) :
-    (applyRuleM s ms mk tr un).res.out = s ∧ (applyRuleM s ms mk tr un).res.applied = false ∧
-    (applyRuleM s ms mk tr un).res.sm = zeromap s ∧
-    (applyRuleM s ms mk tr un).res.em = List.replicate (s.length + 1) 0 ++ [-1] := by
+    (applyRuleF s ms mk tr un).res.out = s ∧ (applyRuleF s ms mk tr un).res.applied = false ∧
+    (applyRuleF s ms mk tr un).res.sm = zeromap s ∧
+    (applyRuleF s ms mk tr un).res.em = List.replicate (s.length + 1) 0 ++ [-1] := by
   have hl : liveMatches s ms mk tr un = [] := by
     unfold liveMatches
     rw [List.filter_eq_nil_iff]
@@ -167,7 +215,7 @@ theorem applyRuleM_all_blocked (s : Str) (ms : List M) (mk : MaskA) (tr un : Lis
     cases ms with
     | nil => exact absurd rfl hne
     | cons a b => rfl
-  unfold applyRuleM
+  unfold applyRuleF
   simp only [hms, Bool.false_eq_true, if_false, hl, ruleLoop, List.isEmpty_nil, Bool.not_true, List.drop_zero]
   by_cases hs : 0 < s.length
   · simp only [hs, if_true, copyPart, zeromap, rep_sm, rep_em, and_self]
@@ -175,6 +223,35 @@ theorem applyRuleM_all_blocked (s : Str) (ms : List M) (mk : MaskA) (tr un : Lis
     subst this
     simp only [List.length_nil, Nat.lt_irrefl, if_false, Part.empty, zeromap]
     exact ⟨trivial, trivial, rfl, rfl⟩
+
+/-- the string under a mask: substitution of the matches that are not blocked. -/
+theorem applyRuleM_string (s : Str) (ms : List M) (mk : MaskA) (tr un : List Seg) :
+    (applyRuleM s ms mk tr un).res.out = subst s (tr ++ un) (liveMatches s ms mk tr un) 0 := by
+  rw [applyRuleM_eq_filter]
+  exact applyRuleF_string s ms mk tr un
+
+/-- no match blocked: exactly the mask-free rule application. -/
+theorem applyRuleM_not_blocked (s : Str) (ms : List M) (mk : MaskA) (tr un : List Seg)
+    (h : ∀ m ∈ ms, (blockedM s m mk tr un).1 = false) :
+    (applyRuleM s ms mk tr un).res = applyRule s ms tr un := by
+  rw [applyRuleM_eq_filter]
+  exact applyRuleF_not_blocked s ms mk tr un h
+
+/-- some match not blocked: the mask-free rule application on the matches that are not blocked. -/
+theorem applyRuleM_live (s : Str) (ms : List M) (mk : MaskA) (tr un : List Seg)
+    (h : liveMatches s ms mk tr un ≠ []) :
+    (applyRuleM s ms mk tr un).res = applyRule s (liveMatches s ms mk tr un) tr un := by
+  rw [applyRuleM_eq_filter]
+  exact applyRuleF_live s ms mk tr un h
+
+/-- every match blocked: string unchanged, not applied, zero maps (the end sentinel holds -1). -/
+theorem applyRuleM_all_blocked (s : Str) (ms : List M) (mk : MaskA) (tr un : List Seg) (hne : ms ≠ [])
+    (h : ∀ m ∈ ms, (blockedM s m mk tr un).1 = true) :
+    (applyRuleM s ms mk tr un).res.out = s ∧ (applyRuleM s ms mk tr un).res.applied = false ∧
+    (applyRuleM s ms mk tr un).res.sm = zeromap s ∧
+    (applyRuleM s ms mk tr un).res.em = List.replicate (s.length + 1) 0 ++ [-1] := by
+  rw [applyRuleM_eq_filter]
+  exact applyRuleF_all_blocked s ms mk tr un hne h
 
 private theorem validFrom_weaken (n : Nat) (pos pos' : Nat) (ms : List M) (h : ValidFrom n pos ms)
     (hp : pos' ≤ pos) : ValidFrom n pos' ms := by
@@ -210,7 +287,8 @@ private theorem maskLoop_az (s : Str) (mk : MaskA) (h : AllZero mk) (tr un : Lis
 
 private theorem applyRuleM_mask_az (s : Str) (ms : List M) (mk : MaskA) (tr un : List Seg) (h : AllZero mk) :
     AllZero (applyRuleM s ms mk tr un).mask := by
-  unfold applyRuleM
+  rw [applyRuleM_eq_filter]
+  unfold applyRuleF
   split
   · exact h
   · exact az_cons (az_append (maskLoop_az s mk h tr un _ 0) (az_cons az_nil))
